@@ -803,7 +803,7 @@ class StepResult(Generic[TSimulatorState], metaclass=abc.ABCMeta):
         for op in measurement_ops:
             gate = cast(ops.MeasurementGate, op.gate)
             key = gate.key
-            out = np.zeros(shape=(repetitions, len(op.qubits)), dtype=np.int8)
+            out = np.zeros(shape=(repetitions, len(op.qubits)), dtype=np.uint8)
             inv_mask = gate.full_invert_mask()
             cmap = gate.confusion_map
             for i, q in enumerate(op.qubits):
